@@ -67,7 +67,9 @@ def gen_cases(rng, n, profile):
                 "p_call2": {"c16": 0.1}.get(profile, 0.02),
                 "managed": rng.random() < 0.5,          # calls made inside `with Parallel(...)`
                 "warn_error": rng.random() < 0.3,       # close() under warnings-as-errors
-                "p_abort_race": 0.5}
+                "p_abort_race": 0.5,
+                # the backend refuses a batch at one of the caller's dispatches (submit raises)
+                "p_refuse": rng.choice([0.0, 0.0, 0.0, 0.15, 0.4]) if profile in ("c04", "c01", "c16") else 0.0}
         if i < 16:
             # a fixed share of every run, whatever the profile: generators abandoned early (close / close from another
             # thread / drop), half of them under warnings-as-errors, inside and outside a with block, with completions
@@ -139,6 +141,8 @@ def coq_events(events):
             out.append("ECall %s 0 None" % (cur or "{| n_jobs := 2; pre := PreAll; mode := Ordered |}"))
         elif k == "dispatch":
             out.append("EDispatch %d" % e[1])
+        elif k == "refuse":
+            out.append("ERefuse %d" % e[1])
         elif k == "cb":
             o = e[3]
             out.append("ECbStart %d %s" % (e[1], "None" if o is None else "(Some (ErrTask %d))" % o))
@@ -196,7 +200,7 @@ def real_obs_code(o):
     if k == "stop":
         return [1]
     if k == "raised":
-        code = {"task": 0, "iter": 1, "timeout": 2, "runtime": 3, "attr": 4}.get(o[1])
+        code = {"task": 0, "iter": 1, "timeout": 2, "runtime": 3, "attr": 4, "backend": 5}.get(o[1])
         if code is None:
             return [2, 99, 0]
         return [2, code, o[2] if code == 0 else 0]
@@ -302,7 +306,9 @@ def oracle(run, profile_all=True):
                 bad.append(("C04", "raised an iterator error although the input did not fail"))
             if kind == "timeout" and tmo is None:
                 bad.append(("C04", "TimeoutError without a timeout"))
-            if kind in ("attr",) or kind not in ("task", "iter", "timeout", "runtime"):
+            if kind == "backend" and not any(e[0] == "refuse" for e in c["events"]):
+                bad.append(("C04", "the call raised the backend's refusal although the backend refused nothing"))
+            if kind in ("attr",) or kind not in ("task", "iter", "timeout", "runtime", "backend"):
                 bad.append(("C04", "call died with an internal error: %s" % out))
         # clean-up duties of a finished call: abort_everything exactly once for a call that ended by an exception or
         # a close inside the retrieval loop (with ensure_ready = "inside a with block"), stop_call once per call,
@@ -362,7 +368,7 @@ def oracle(run, profile_all=True):
                 bad.append(("C16", "calling a running Parallel gave %s instead of RuntimeError" % o))
         # C09: laziness bound, stop after abort, pre_dispatch='all'
         amt = pre_amount(pre, nj)
-        bmax = max([e[1] for e in c["events"] if e[0] == "dispatch"] + [e[2] for e in c["events"] if e[0] == "cbfin"] + [1])
+        bmax = max([e[1] for e in c["events"] if e[0] in ("dispatch", "refuse")] + [e[2] for e in c["events"] if e[0] == "cbfin"] + [1])
         aborted_taken = None
         started = False
         for e, s in zip(c["events"], c["snaps"]):
